@@ -1,13 +1,14 @@
 SPECIFICATION Spec
 CONSTANTS
   Alpha = {0, 1}
-  MaxN = 8
+  MaxN = 7
   Blks = {2, 3, 5}
   MinMs = {2, 3}
   Wnds = {3, 16}
   Variant = "pinned"
   EmitOps = TRUE
   AllowNTL = TRUE
+  TwoWrites = TRUE
 INVARIANT StateInv
 PROPERTY Refines
 ACTION_CONSTRAINT Emit
